@@ -244,6 +244,8 @@ func checkC16(c *Ctx) Meta {
 	c.pushAlias("C17-OWN", "C16-OWN")
 	checkFrameOwnership(c)
 	c.popAlias()
+	c.Rule("C16-WRITER", "frames are written whole: only the send routine writes to the connection's socket (every function reaching a raw net.Conn.Write is called from sendRoutine alone), so a keepalive or control frame can never land between the size prefix and the body of another frame", 1)
+	checkSingleWriter(c, "C16-WRITER")
 	// ---- RECV: the receiver sees decode failures as errors, never as a nil message
 	c.Rule("C16-RECV", "an undecodable frame reaches the receiver loop as an error: readRemoteMessage returns DecodeMessage's error (never a nil message with a nil error), and messageProcessor touches the message only behind the error test", 2)
 	if f := c.MustFn("C16-RECV", "fractal", "(*MessageReceiver).readRemoteMessage"); f != nil {
@@ -876,4 +878,114 @@ func sameModuloLosslessConv(a, b ssa.Value) bool {
 		}
 	}
 	return peel(a) == peel(b)
+}
+
+// checkSingleWriter: frames are not interleaved on the wire: only the send routine writes to the
+// connection's socket. Every function of the connection package from which a raw Write on the net.Conn
+// is reachable is (transitively) called from sendRoutine alone; a keepalive or control frame written
+// directly by another goroutine can land between the size prefix and the body of a frame and
+// desynchronise the stream.
+func checkSingleWriter(c *Ctx, rule string) {
+	const pkgConn = repoMod + "/fractal/connection"
+	key := "connection:socket-written-by-sendRoutine-only"
+	send := c.MustFn(rule, "fractal/connection", "(*Conn).sendRoutine")
+	if send == nil {
+		return
+	}
+	isRawWrite := func(in ssa.Instruction) bool {
+		ci, ok := in.(ssa.CallInstruction)
+		if !ok || !ci.Common().IsInvoke() || ci.Common().Method.Name() != "Write" {
+			return false
+		}
+		return strings.HasSuffix(ci.Common().Value.Type().String(), "net.Conn")
+	}
+	writers := map[*ssa.Function]bool{}
+	for fn := range c.AllFuncs {
+		if pkgOf(fn) != pkgConn {
+			continue
+		}
+		fn := fn
+		allInstrs(fn, func(in ssa.Instruction) {
+			if isRawWrite(in) {
+				writers[outermost(fn)] = true
+			}
+		})
+	}
+	if len(writers) == 0 {
+		c.Bad(rule, key, c.Pos(send.Pos()), "reason=anchor-missing: no Write on the net.Conn in the connection package")
+		return
+	}
+	// R: functions that reach a writer through static calls inside the package
+	reach := map[*ssa.Function]bool{}
+	for w := range writers {
+		reach[w] = true
+	}
+	callers := map[*ssa.Function][]*ssa.Function{}
+	for fn := range c.AllFuncs {
+		if pkgOf(fn) != pkgConn {
+			continue
+		}
+		fn := fn
+		allInstrs(fn, func(in ssa.Instruction) {
+			if ci, ok := in.(ssa.CallInstruction); ok {
+				if h := ci.Common().StaticCallee(); h != nil && pkgOf(h) == pkgConn {
+					callers[outermost(h)] = append(callers[outermost(h)], outermost(fn))
+				}
+			}
+		})
+	}
+	for changed := true; changed; {
+		changed = false
+		for h, cs := range callers {
+			if !reach[h] || h == send {
+				continue // who starts the send routine is not a writer
+			}
+			for _, g := range cs {
+				if !reach[g] {
+					reach[g] = true
+					changed = true
+				}
+			}
+		}
+	}
+	var bad []string
+	for fn := range reach {
+		if fn == send {
+			continue
+		}
+		// every caller chain must end in sendRoutine: a function in R that is started as a goroutine, is
+		// exported, or has a caller outside R∪… is another writer
+		isRoot := len(callers[fn]) == 0 || isExportedFn(fn)
+		onlyFromSend := true
+		seen := map[*ssa.Function]bool{}
+		var up func(f *ssa.Function) bool
+		up = func(f *ssa.Function) bool {
+			if f == send {
+				return true
+			}
+			if seen[f] {
+				return true
+			}
+			seen[f] = true
+			if len(callers[f]) == 0 {
+				return false
+			}
+			for _, g := range callers[f] {
+				if !up(g) {
+					return false
+				}
+			}
+			return true
+		}
+		onlyFromSend = up(fn)
+		if isRoot || !onlyFromSend {
+			bad = append(bad, FuncName(fn))
+		}
+	}
+	sort.Strings(bad)
+	if len(bad) > 0 {
+		c.Bad(rule, key, c.Pos(send.Pos()), "the socket can be written outside the send routine (via "+strings.Join(bad, ", ")+"): two goroutines writing frames concurrently interleave a prefix or keepalive with another frame's body, the peer reads a shifted frame (\"unknown msg type\") and the stream is lost")
+	} else {
+		c.OK(rule, key, c.Pos(send.Pos()), fmt.Sprintf("%d function(s) reach the raw Write, all only through sendRoutine", len(reach)))
+	}
 }
